@@ -28,7 +28,7 @@ pub fn plan() -> Plan {
         profiles,
         directed: vec![],
         quick_histories: 300,
-        thorough_histories: 40000,
+        thorough_histories: 160_000,
         s5: None,
         enumerate_session_end: None,
         enumerate_symbols: None,
